@@ -9,7 +9,8 @@ import (
 )
 
 // Shape mirrors the tuple encoding of spec/Planar.tla:
-//   ["pt",p]  ["rect",min,max]  ["line",pts]  ["poly",ext,holes]
+//
+//	["pt",p]  ["rect",min,max]  ["line",pts]  ["poly",ext,holes]
 type Shape struct {
 	Kind  string
 	P     []int
